@@ -1355,7 +1355,11 @@ class Model(Object):
         When using in a context, this attribute can be set temporarily.
         """
         if isinstance(value, Basic):
-            value = self.problem.Objective(value, sloppy=False)
+            # an expression says nothing about the direction: keep the current one,
+            # as for a dictionary or a reaction
+            value = self.problem.Objective(
+                value, direction=self.objective_direction, sloppy=False
+            )
         if not isinstance(value, (dict, optlang.interface.Objective)):
             try:
                 reactions = self.reactions.get_by_any(value)
